@@ -116,15 +116,16 @@ PROPS["C08"] = {
 
 PROPS["C20"] = {
     "props_files": ["Props/C20.v"],
-    "go_tests": ["TestVerifWait", "TestVerifWaitConcurrent", "TestVerifWaitFullQueue"],
+    "go_tests": ["TestVerifWait", "TestVerifWaitConcurrent", "TestVerifWaitFullQueue", "TestVerifWaitBusyPolicyLock"],
     "level": "proof",
     "rule": "deterministic: real Wait() calls blocked in goroutines, Set/Delete traffic, and the real drainWrite() applied to harness-chosen "
             "batch boundaries (1..4 items or everything) so that markers fall at every position relative to a batch; concurrent: 2..8 goroutines "
-            "doing Set+Wait against the real maintenance goroutine; non-trivial = >= 3 steps; distinct = sha1 of the case",
+            "doing Set+Wait against the real maintenance goroutine; Set+Wait while the policy lock is busy for 30..90 ms (held directly, or by SaveCache writing to a slow writer) with nothing written afterwards; "
+            "non-trivial = >= 3 steps; distinct = sha1 of the case",
     "trusted_base": STORE_TB + ["Go channels are FIFO; close(chan) wakes every receiver"],
     "assumptions": ["the maintenance goroutine keeps being scheduled while the cache is open"],
     "project_codes": {"wait": ["12", "13", "1", "2", "6", "7"]},
-    "impl_only_traces": ["waitconc", "waitfull"],
+    "impl_only_traces": ["waitconc", "waitfull", "waitbusy"],
     "monitor_tags": ["C20"],
     "explanation": "barrier and release theorems over the store model's queue; released waiters per batch compared with the real Wait",
 }
